@@ -59,6 +59,12 @@ func (l *LSTM) Init(n *onnx.NodeProto) error {
 			l.hiddenSize = int(attr.GetI())
 		case "input_forget":
 			l.inputForget = attr.GetI() == 1
+
+			// Coupling the input and forget gates is not implemented; refuse
+			// the attribute rather than silently ignoring it.
+			if l.inputForget {
+				return ops.ErrUnsupportedAttribute(attr.GetName(), l)
+			}
 		default:
 			return ops.ErrInvalidAttribute(attr.GetName(), l)
 		}
